@@ -896,6 +896,16 @@ def _isfinite(x):
     return torch.ones(_obj(x).shape, dtype=torch.bool)
 
 
+@reg("isclose")
+def _isclose(x, y, rtol=1e-05, atol=1e-08, equal_nan=False):
+    """torch.isclose over the reals: |x - y| <= atol + rtol * |y| decided per element by forking (so that the band in which two
+    DIFFERENT reals count as close is a path of its own, on which every claim must still hold)"""
+    diff = x - y
+    lhs = HANDLERS["abs"](diff) if isinstance(diff, ST) else torch.abs(diff)
+    ay = HANDLERS["abs"](y) if isinstance(y, ST) else torch.abs(torch.as_tensor(y))
+    return lhs <= ay * rtol + atol
+
+
 @reg("allclose")
 def _allclose(x, y, **k):
     xa, ya = np.broadcast_arrays(_obj_f(x), _obj_f(y))
